@@ -1610,6 +1610,8 @@ func TestProp(t *testing.T) {
 			fam = "retype-twin"
 		case hasFeat(cb.p, "row-twin"):
 			fam = "row-twin"
+		case hasFeat(cb.p, "print-twin"):
+			fam = "print-twin"
 		}
 		if fam != "" {
 			if first, ok := famSeen[fam]; ok && first != cb.p.Name {
@@ -1658,7 +1660,7 @@ func TestProp(t *testing.T) {
 			}
 		}
 	}
-	for _, family := range []string{"near-twin", "retype-twin", "row-twin"} {
+	for _, family := range []string{"near-twin", "retype-twin", "row-twin", "print-twin"} {
 		var twins []combo
 		for _, cb := range scs {
 			if hasFeat(cb.p, family) {
